@@ -181,6 +181,31 @@ def _rand_labels(rng, nx):
     return mixed
 
 
+def _rand_pre(rng, wl, n, fm_fit, force=False):
+    """an earlier life of the SAME forecaster object (or None): built with another window_length (and
+    step_length), fitted on a prefix of the series (mostly long enough for that window; possibly asked
+    to predict), then reconfigured to the case's settings by set_params / attribute assignment.  The
+    fit the case goes on with must behave exactly like the fit of a fresh forecaster."""
+    if not force and rng.random() >= 0.3:
+        return None
+    others = [w for w in (1, 2, 3, 4, 5, 6, 7) if w != wl]
+    r = rng.random()
+    small = [w for w in others if w < wl]
+    large = [w for w in others if w > wl and w + fm_fit <= n] or [w for w in others if w > wl]
+    if r < 0.45 and small:
+        a = rng.choice(small)                       # the window grows on reconfiguration
+    elif r < 0.9:
+        a = rng.choice(large)                       # the window shrinks
+    else:
+        a = wl                                      # refit with unchanged settings
+    lo = min(n, a + fm_fit)
+    m = n if rng.random() < 0.5 else rng.randint(lo, n)
+    if rng.random() < 0.08:
+        m = rng.randint(1, n)                       # possibly too short: the first fit is refused
+    return {"wl": a, "step": rng.choice([1, 1, 2, 3]), "n": m, "predict": rng.random() < 0.6,
+            "how": rng.choice(["set_params", "set_params", "attr"])}
+
+
 def _run_case(rng, strategy=None):
     st = strategy or rng.choice(STRATS)
     fh = _rand_fh(rng)
@@ -207,7 +232,11 @@ def _run_case(rng, strategy=None):
          else rng.choice(["fit", "both"])}
     c["dtype"] = _rand_dtype(rng)
     c["xlabels"] = _rand_labels(rng, nx)
-    return _boolify(rng, c)
+    c = _boolify(rng, c)
+    pre = _rand_pre(rng, wl, n, fm_fit)
+    if pre:
+        c["pre"] = pre
+    return c
 
 
 def gen_cases(rng, tier):
@@ -439,10 +468,14 @@ def _hist_case(rng, scenario=None, st=None):
                 add_update(s, k, kind="ups", fhp=pfh(), up=rng.random() < 0.2)
             else:
                 fresh_updpred(up=rng.random() < 0.2, overlap=rng.random() < 0.4)
-    return {"kind": "hist", "scenario": scenario, "strategy": st, "scitype": rng.choice(["tab", "ts"]),
-            "explicit": rng.random() < 0.2, "wl": wl, "off": off, "y": vals(0, n0),
-            "xs": xvals(0, n0), "fh": list(fh), "ops": ops, "dtype": _rand_dtype(rng, allow_bool=False),
-            "xlabels": _rand_labels(rng, nx)}
+    c = {"kind": "hist", "scenario": scenario, "strategy": st, "scitype": rng.choice(["tab", "ts"]),
+         "explicit": rng.random() < 0.2, "wl": wl, "off": off, "y": vals(0, n0),
+         "xs": xvals(0, n0), "fh": list(fh), "ops": ops, "dtype": _rand_dtype(rng, allow_bool=False),
+         "xlabels": _rand_labels(rng, nx)}
+    pre = _rand_pre(rng, wl, n0, fm_fit)
+    if pre:
+        c["pre"] = pre
+    return c
 
 
 
@@ -672,6 +705,35 @@ def _canon_moving(r, fh):
     return out
 
 
+def _earlier_life(f, case, y, X, fit_fh, pred_fh, can_predict):
+    """case["pre"]: `f` was built with pre["wl"]; fit it on a prefix, maybe predict, then reconfigure
+    the same object to the case's settings.  Errors of the ERRS families in this earlier life are not
+    the subject (the prefix may be too short for the old window); the regressor log is cleared so that
+    only the life after reconfiguration is judged."""
+    pre = case["pre"]
+    info = {}
+    try:
+        if pre.get("step", 1) != 1:
+            f.set_params(step_length=pre["step"])
+        m = max(1, min(int(pre.get("n") or len(y)), len(y)))
+        f.fit(y.iloc[:m], X.iloc[:m] if X is not None else None, fh=fit_fh)
+        info["fitted"] = True
+        if pre.get("predict") and can_predict:
+            f.predict(fh=pred_fh)
+            info["predicted"] = True
+    except Exception as e:
+        if type(e).__name__ not in ERRS:
+            raise
+        info["err"] = type(e).__name__
+    if pre.get("how") == "attr":
+        f.window_length = case["wl"]
+        f.step_length = 1
+    else:
+        f.set_params(window_length=case["wl"], step_length=1)
+    del _LOG[:]
+    return info
+
+
 def _run_hist(case):
     import warnings
     import numpy as np
@@ -692,10 +754,18 @@ def _run_hist(case):
     sc = "infer"
     if case.get("explicit"):
         sc = "tabular-regressor" if case["scitype"] == "tab" else "time-series-regressor"
-    f = _reduce.make_reduction(est, strategy=case["strategy"], window_length=case["wl"], scitype=sc)
+    pre = case.get("pre")
+    f = _reduce.make_reduction(est, strategy=case["strategy"],
+                               window_length=pre["wl"] if pre else case["wl"], scitype=sc)
     _CUR[0] = f
     steps = []
     mark = [0]
+    if pre:
+        import warnings as _w
+        with _w.catch_warnings():
+            _w.simplefilter("ignore")
+            _earlier_life(f, case, ser(off, case["y"]), frm(off, case["xs"]), list(case["fh"]), None,
+                          not (nx and case["strategy"] == "recursive"))
 
     def events():
         evs = []
@@ -843,8 +913,16 @@ def run_impl(case):
         sc = "tabular-regressor" if case["scitype"] == "tab" else "time-series-regressor"
     stage = "make"
     try:
-        f = _reduce.make_reduction(est, strategy=case["strategy"], window_length=case["wl"],
-                                   scitype=sc)
+        pre = case.get("pre")
+        f = _reduce.make_reduction(est, strategy=case["strategy"],
+                                   window_length=pre["wl"] if pre else case["wl"], scitype=sc)
+        if pre:
+            stage = "reconfigure"
+            # the earlier fit is always told the horizon (the same one): a fitted optional-horizon
+            # forecaster that has never seen any fh refuses `fit(y)` without fh (its _set_fh looks at
+            # is_fitted of the earlier life) - a matter of horizon bookkeeping, not of this property
+            _earlier_life(f, case, y, X, fh, None,
+                          not (case["xs"] and case["strategy"] == "recursive"))
         stage = "fit"
         if case["fh_at"] == "predict":
             f.fit(y, X)
@@ -1425,7 +1503,25 @@ def nontrivial(case, out):
     return nw >= 2
 
 
+def _shrink_pre(c):
+    """simpler earlier lives first: none at all, then a plainer one"""
+    pre = c.get("pre")
+    if not pre:
+        return
+    d = dict(c)
+    del d["pre"]
+    yield d
+    plain = dict(pre, step=1, predict=False, how="set_params", n=len(c["y"]))
+    for k in ("step", "predict", "how", "n"):
+        if pre.get(k) != plain[k]:
+            d = dict(c)
+            d["pre"] = dict(pre, **{k: plain[k]})
+            yield d
+
+
 def _shrink_hist(c):
+    for d in _shrink_pre(c):
+        yield d
     ops = c["ops"]
     for i in reversed(range(len(ops))):
         d = dict(c)
@@ -1492,6 +1588,8 @@ def shrink(case):
             yield d
         return
     c = dict(case)
+    for d in _shrink_pre(c):
+        yield d
     n = len(c["y"])
     if n > 1:
         for m in (n - 1, n // 2):
@@ -1761,6 +1859,11 @@ def distribution(cases, results):
                     srt = None
                 d["xlabels(>=2 columns):%s" % ("mixed types" if srt is None else "sorted" if srt
                                                else "not sorted")] += 1
+        if c["kind"] in ("hist", "run") and c.get("pre"):
+            a = c["pre"]["wl"]
+            d["%s:refit-after-%s:window %s" % (c["kind"], c["pre"].get("how"),
+                                              "grows" if a < c["wl"] else "shrinks" if a > c["wl"]
+                                              else "unchanged")] += 1
         if c["kind"] == "hist":
             d["hist:scenario=%s" % c.get("scenario")] += 1
             d["hist:%s:%s" % (c["strategy"], c["scitype"])] += 1
